@@ -156,18 +156,60 @@ def buckets(ctx, F):
             cs = [(n(d), (taken == "otherwise") if vals == [0] else bool(taken)) for (_, d, taken, vals) in p.conds]
             st = [(n(pl), n(v)) for _, pl, v in p.stores]
             dec.append((cs, st))
-        if not low:
-            ok = dec == [([], [store])]
-        else:
-            flag = ("cpath", "buckets::constrained::FuzzyHashBucketMapper::IS_B_MAPPING_CONSTRAINED_WITHIN_BUCKETS")
-            big = ("bin", "Le", ("cparam", "SIZE_BUCKETS"), i)
-            ok = sorted(map(repr, dec)) == sorted(map(repr, [
-                ([(flag, True)], [store]),
-                ([(flag, False), (big, True)], []),
-                ([(flag, False), (big, False)], [store]),
-            ]))
+        # decided on the whole domain: bucket count x index (0..=255): the counter buckets[index] is incremented (wrapping) iff the
+        # index fits the array -- always for the 256-entry array; in the reduced layout iff index < SIZE_BUCKETS, which the
+        # constrained mapping (256 buckets) guarantees
+        from .. import evalx
+        evalx.set_target(F)
+        paths = S.paths()
+        consts_ = F.impl_consts("buckets::constrained::FuzzyHashBucketsInfo<", "buckets::constrained::FuzzyHashBucketMapper")
+        flags = {int(k.split("<")[1].rstrip(">")): v.get("IS_B_MAPPING_CONSTRAINED_WITHIN_BUCKETS") for k, v in consts_.items()}
+        why = None
+        try:
+            for size in (48, 128, 256):
+                if flags.get(size) is None:
+                    why = "IS_B_MAPPING_CONSTRAINED_WITHIN_BUCKETS unknown for %d buckets" % size
+                    break
+                for ix in range(256):
+                    sub = {("cpath", "buckets::constrained::FuzzyHashBucketMapper::IS_B_MAPPING_CONSTRAINED_WITHIN_BUCKETS"): flags[size]}
+                    asg = {"params": {1: ("obj", "self"), 2: ix}, "cparams": {"SIZE_BUCKETS": size}, "subst": sub}
+                    cap = 256 if not low else size
+                    try:
+                        p = evalx.select(S, F, paths, asg)
+                        sts = [(n(pl), n(v)) for _, pl, v in p.stores]
+                        panicked = False
+                    except evalx.Panics:
+                        sts, panicked = [], True
+                    want_store = ix < cap
+                    if panicked:
+                        why = "%d buckets, index %d: panics" % (size, ix)
+                        break
+                    if not want_store:
+                        if sts:
+                            why = "%d buckets, index %d: writes %s although the index does not fit" % (size, ix, [sym.fmt(a) for a, _ in sts])
+                            break
+                        continue
+                    okst = len(sts) == 1
+                    if okst:
+                        pl, v = sts[0]
+                        while pl[0] == "deref" and pl[1][0] == "ref":
+                            pl = pl[1][-1]
+                        m_ = match(("index", arr, V("i")), pl)
+                        iv = evalx.ev(S, F, m_["i"], asg) if m_ else None
+                        okst = iv == ix and v in (("call", "core::num::<impl u32>::wrapping_add", (("load", pl), C(1))),
+                                                   ("call", "core::num::<impl u32>::wrapping_add", (("load", sts[0][0]), C(1))))
+                    if not okst:
+                        why = "%d buckets, index %d: stores %s; reference buckets[index] = buckets[index].wrapping_add(1)" % (
+                            size, ix, [(sym.fmt(a), sym.fmt(c)) for a, c in sts])
+                        break
+                if why:
+                    break
+        except evalx.Unknown as ex:
+            why = "cannot evaluate: %s" % ex
+        ok = why is None
+        dec = [why]
         ctx.ob(r, ("FuzzyHashBucketsData::increment", "guard"), ok,
-               "increment is %s" % [([(sym.fmt(c), t) for c, t in cs], [(sym.fmt(a), sym.fmt(v)) for a, v in st]) for cs, st in dec], cfg=F.key, where=b.where())
+               "increment: %s" % dec[0], cfg=F.key, where=b.where())
     consts = F.impl_consts("buckets::constrained::FuzzyHashBucketsInfo<", "buckets::constrained::FuzzyHashBucketMapper")
     got = {k.split("<")[1].rstrip(">"): v.get("IS_B_MAPPING_CONSTRAINED_WITHIN_BUCKETS") for k, v in consts.items()}
     ctx.ob(r, ("IS_B_MAPPING_CONSTRAINED_WITHIN_BUCKETS", "values"), got == {"48": 0, "128": 0, "256": 1},
